@@ -266,6 +266,7 @@ def shards(tier, seed):
     per = 1500 if tier == "quick" else 40000
     for i in range(nrand):
         specs.append({"part": "random", "seed": seed * 1000 + i, "n": per})
+    specs.append({"part": "atheris", "seed": seed, "runs": 30000 if tier == "quick" else 1500000})
     return specs
 
 
@@ -317,6 +318,10 @@ def run_shard(spec):
                 for L in range(0, spec["maxlen"] - 1):
                     for t in itertools.product(ALPHABET, repeat=L):
                         _run_string(res, pre + "".join(t))
+        elif spec["part"] == "atheris":
+            import sys
+            from zcv import fuzzrun
+            fuzzrun.run(res, sys.modules[__name__], ID, spec["runs"], spec["seed"], max_len=64)
         else:
             _run_random(res, spec)
     finally:
@@ -424,3 +429,27 @@ def check_coverage(tier, counters):
         if counters.get(k, 0) < 50:
             probs.append("class %s has only %d random cases" % (k, counters.get(k, 0)))
     return probs
+
+
+# --------------------------------------------------------------------------
+# Atheris stage (thorough tier; python3-vt): byte 0 picks the assignment, the rest is the string
+
+
+def fuzz_decode(data):
+    if not data:
+        return []
+    pick = data[0]
+    s = data[1:].decode("utf-8", "replace")[:200]
+    cases = [{"kind": "isname", "s": s[:40]}]
+    asg = list(assignments(s))
+    mapping, env, env_names = asg[pick % len(asg)]
+    cases.append({"kind": "subst", "s": s, "mapping": mapping, "env": env, "env_names": env_names,
+                  "getonly": bool(pick & 0x80)})
+    return cases
+
+
+def fuzz_seeds():
+    out = []
+    for i, s in enumerate(["$a", "${a}b", "$(A)", "$$", "x$a$b", "${aB}$(Ab)", "a $ b", "${a", "$(a", "$1", "é$é"]):
+        out.append(bytes([i]) + s.encode("utf-8"))
+    return out
